@@ -378,6 +378,10 @@ func synthNitro(r *rng) {
 		}
 		tillCase("synth", r, &gt, &lt, wdt, zeit)
 	}
+	if r.chance(0.5) {
+		gh, lh := g, l
+		harvCase("synth", r, &gh, &lh, wdt, zeit)
+	}
 	if r.chance(0.6) {
 		mineralCase("synth", &g, &l)
 	}
@@ -417,6 +421,7 @@ func c02(args []string) {
 	fs := flag.NewFlagSet("c02", flag.ExitOnError)
 	seed := fs.Uint64("seed", 1, "seed")
 	n := fs.Int("synth", 200, "synthetic cases")
+	fs.StringVar(&harvWork, "work", "", "scratch directory for the generated CROP_N.TXT of the harvest cases")
 	fs.Parse(args)
 	defer stdout.Flush()
 	r := newRng(*seed)
